@@ -225,6 +225,9 @@ type c12Env struct {
 	fn   *ssa.Function
 	args []ssa.Value
 	up   *c12Env
+	// for a closure: the values bound to its free variables, in the context the closure was made in
+	free    []ssa.Value
+	freeCtx *c12Env
 }
 
 // c12V is an SSA value together with the helper context it occurs in.
@@ -266,10 +269,36 @@ func c12Res(x c12V, anyInt bool) c12V {
 				return x
 			}
 			x = c12V{x.env.args[i], x.env.up}
+		case *ssa.FreeVar:
+			if x.env == nil || t.Parent() != x.env.fn {
+				return x
+			}
+			i := 0
+			for i < len(x.env.fn.FreeVars) && x.env.fn.FreeVars[i] != t {
+				i++
+			}
+			if i >= len(x.env.free) {
+				return x
+			}
+			x = c12V{x.env.free[i], x.env.freeCtx}
 		case *ssa.UnOp:
+			if t.Op != token.MUL {
+				return x
+			}
+			// a variable kept in a cell because a closure captures it (new T; one store; loads): its one value
+			if _, direct := t.X.(*ssa.FieldAddr); !direct {
+				ptr := c12Res(c12V{t.X, x.env}, false)
+				if al, isAl := ptr.v.(*ssa.Alloc); isAl {
+					if v, ok := c12CellValue(al); ok {
+						x = c12V{v, ptr.env}
+						continue
+					}
+				}
+				return x
+			}
 			// s.f read back from a non-escaping local struct (a composite literal, or a by-value parameter go/ssa spills)
 			fa, isFA := t.X.(*ssa.FieldAddr)
-			if t.Op != token.MUL || !isFA {
+			if !isFA {
 				return x
 			}
 			al, isAl := fa.X.(*ssa.Alloc)
@@ -303,11 +332,84 @@ func c12Res(x c12V, anyInt bool) c12V {
 			if ret == nil || depth >= 4 {
 				return x
 			}
-			x = c12V{ret, &c12Env{callee, t.Call.Args, x.env}}
+			x = c12V{ret, &c12Env{fn: callee, args: t.Call.Args, up: x.env}}
 		default:
 			return x
 		}
 	}
+}
+
+// c12CellValue: local al (possibly a heap cell shared with closures) is
+// assigned exactly once, before every other use, and is otherwise only loaded —
+// here and in the closures that capture it: every load yields that value.
+func c12CellValue(al *ssa.Alloc) (ssa.Value, bool) {
+	if al.Referrers() == nil {
+		return nil, false
+	}
+	var store *ssa.Store
+	for _, r := range *al.Referrers() {
+		if st, ok := r.(*ssa.Store); ok {
+			if st.Addr != ssa.Value(al) || store != nil {
+				return nil, false
+			}
+			store = st
+		}
+	}
+	if store == nil {
+		return nil, false
+	}
+	var readOnly func(fn *ssa.Function, i, depth int) bool
+	readOnly = func(fn *ssa.Function, i, depth int) bool {
+		if fn == nil || i >= len(fn.FreeVars) || depth > 3 {
+			return false
+		}
+		fv := fn.FreeVars[i]
+		if fv.Referrers() == nil {
+			return true
+		}
+		for _, r := range *fv.Referrers() {
+			switch x := r.(type) {
+			case *ssa.DebugRef:
+			case *ssa.UnOp:
+				if x.Op != token.MUL {
+					return false
+				}
+			case *ssa.MakeClosure:
+				inner, _ := x.Fn.(*ssa.Function)
+				for k, b := range x.Bindings {
+					if b == ssa.Value(fv) && !readOnly(inner, k, depth+1) {
+						return false
+					}
+				}
+			default:
+				return false
+			}
+		}
+		return true
+	}
+	for _, r := range *al.Referrers() {
+		switch x := r.(type) {
+		case *ssa.Store, *ssa.DebugRef:
+			continue
+		case *ssa.UnOp:
+			if x.Op != token.MUL {
+				return nil, false
+			}
+		case *ssa.MakeClosure:
+			inner, _ := x.Fn.(*ssa.Function)
+			for k, b := range x.Bindings {
+				if b == ssa.Value(al) && !readOnly(inner, k, 0) {
+					return nil, false
+				}
+			}
+		default:
+			return nil, false
+		}
+		if !instrDominates(store, r) {
+			return nil, false
+		}
+	}
+	return store.Val, true
 }
 
 // c12StructField: field f of the struct value sv, when sv is a whole-struct load
@@ -1263,28 +1365,53 @@ func c12R4(c *Ctx, p *Prog, w map[string][]c12WSite, r *c12Reader) int {
 	// --- stored value
 	vkey := r.spec + "#fill-value"
 	call, _ := st.Val.(*ssa.Call)
-	var calcFn *types.Func // the ray walker called: static, or a function-valued parameter bound at the helper's call
-	if call != nil && !call.Call.IsInvoke() {
-		if f, ok := c12Res(in(call.Call.Value), false).v.(*ssa.Function); ok {
-			calcFn = fnObj(f)
+	// the ray walker called: static, a function-valued parameter bound at the helper's call, or
+	// reached through wrappers/closures that do nothing but return one call (func(occ) { return calc(sq, occ) })
+	var calcFn *types.Func
+	var cargs []ssa.Value
+	cctx := env
+	for cc, depth := call, 0; cc != nil && !cc.Call.IsInvoke() && depth < 3; depth++ {
+		fv := c12Res(c12V{cc.Call.Value, cctx}, false)
+		var f *ssa.Function
+		var free []ssa.Value
+		switch t := fv.v.(type) {
+		case *ssa.Function:
+			f = t
+		case *ssa.MakeClosure:
+			f, _ = t.Fn.(*ssa.Function)
+			free = t.Bindings
 		}
+		if f == nil {
+			break
+		}
+		calcFn, cargs = fnObj(f), cc.Call.Args
+		if n := objName(calcFn); calcFn != nil && (n == r.calc || n == r.otherCalc) {
+			break
+		}
+		inner, isCall := c12SingleReturn(f).(*ssa.Call)
+		if !isCall || f.Blocks == nil || len(cc.Call.Args) != len(f.Params) || !isOwn(f) {
+			break
+		}
+		cctx = &c12Env{fn: f, args: cc.Call.Args, up: cctx, free: free, freeCtx: fv.env}
+		cc, calcFn = inner, nil
 	}
+	cin := func(v ssa.Value) c12V { return c12V{v, cctx} }
 	if calcFn == nil {
 		c.Undec(rule, vkey, st.Pos(), "the value stored into %s is not the result of a call whose callee can be resolved", tname)
 	} else if name := objName(calcFn); name == r.otherCalc {
 		c.Fail(rule, vkey, call.Pos(), "%s fills %s (read by %s) with %s: the other slider's ray walker", fnName(outer), tname, r.spec, name)
-	} else if name != r.calc || len(call.Call.Args) != 2 {
+	} else if name != r.calc || len(cargs) != 2 {
 		c.Undec(rule, vkey, call.Pos(), "%s fills %s with %s, expected %s(sq, occ)", fnName(outer), tname, name, r.calc)
 	} else {
-		a1 := c12Res(in(call.Call.Args[1]), false).v
-		if _, aX, aY, ok := c12Bin(in(call.Call.Args[1]), token.AND); ok { // occ & mask == occ
+		a1 := c12Res(cin(cargs[1]), false).v
+		if _, aX, aY, ok := c12Bin(cin(cargs[1]), token.AND); ok { // occ & mask == occ
 			if isMask(aY) {
 				a1 = c12Res(aX, false).v
 			} else if isMask(aX) {
 				a1 = c12Res(aY, false).v
 			}
 		}
-		if c12Res(in(call.Call.Args[0]), true).v == row && a1 == ssa.Value(occ) {
+		if c12Res(cin(cargs[0]), true).v == row && a1 == ssa.Value(occ) {
 			c.Ok(rule, vkey, call.Pos(), "%s stores %s(sq, occ) with the same square as the row and the same occupancy as the index", fnName(fn), name)
 		} else {
 			c.Undec(rule, vkey, call.Pos(), "%s(…) is not called with the row's square and the occupancy used in the index: a cell would receive the attack set of another square/occupancy", name)
